@@ -60,6 +60,16 @@ def _env():
 
     if hasattr(qmod, "subprocess"):
         qmod.subprocess = NoStty()
+
+    class NoTty(object):
+        """stands in for the `getpass` module inside question.py: there is no terminal to read a hidden answer from
+        (the real getpass would open /dev/tty or read the harness' own stdin)"""
+
+        def getpass(self, *a, **k):
+            raise RuntimeError("no terminal")
+
+    if hasattr(qmod, "getpass"):
+        qmod.getpass = NoTty()
     probe_q = Question("probe")
     if hasattr(probe_q, "_has_stty_available") and probe_q._has_stty_available():
         raise T.MachineryError("stty is reachable: the line-reading path is not guaranteed")
@@ -164,18 +174,34 @@ def regex_of(p):
         ("$" if p["whole"] else "")
 
 
-def build(qd):
+ERRMSG = 'No "{}" <comment>{{here}}</comment>'  # a custom error message with braces and markup
+
+
+def build(qd, kw=False):
+    """-> (question, the caller's own choice list or None).  kw: constructor arguments by keyword instead of by position.
+    qd may carry driver-only extras that the model does not need: errmsg (set_error_message), hidden (hide(): getpass is
+    stubbed to fail, the answer comes from the input), auto (set_autocomplete_values: stty is unreachable)"""
     E = _env()
     k = qd["kind"]
     default = qd["def"] if qd["hasDef"] else None
+    callers_list = None
     if k == "choice":
         callers_list = list(qd.get("built", qd["choices"]))
-        q = E["ChoiceQuestion"]("Pick one", callers_list, default)
+        if kw:
+            q = E["ChoiceQuestion"](question="Pick one", choices=callers_list, default=default)
+        else:
+            q = E["ChoiceQuestion"]("Pick one", callers_list, default)
         q.set_multi_select(qd["multi"])
         q.set_max_attempts(qd["maxAtt"] or None)
+        if qd.get("errmsg"):
+            q.set_error_message(ERRMSG)
         callers_list[:] = qd["choices"]  # the caller edits the list it passed in (append / replace / remove), in place
     elif k == "plain":
-        q = E["Question"]("Say", default)
+        q = E["Question"](question="Say", default=default) if kw else E["Question"]("Say", default)
+        if qd.get("hidden"):
+            q.hide()
+        elif qd.get("auto"):
+            q.set_autocomplete_values(["alpha", "beta"] + list(qd["choices"]))
         if qd["validator"]:
             accepted = list(qd["choices"])
 
@@ -189,9 +215,27 @@ def build(qd):
     else:
         if qd["pat"].get("dflt"):
             q = E["ConfirmationQuestion"]("Sure", qd["defB"])  # the library's own default pattern
+        elif kw:
+            q = E["ConfirmationQuestion"](question="Sure", default=qd["defB"], true_answer_regex=regex_of(qd["pat"]))
         else:
             q = E["ConfirmationQuestion"]("Sure", qd["defB"], regex_of(qd["pat"]))
-    return q
+    return q, callers_list
+
+
+def reconfigure(q, callers_list, qd, rc):
+    """the caller uses a setter / edits its list before asking the same object again; -> the description that holds now"""
+    qd = dict(qd)
+    if "multi" in rc:
+        q.set_multi_select(rc["multi"])
+        qd["multi"] = rc["multi"]
+    if "maxAtt" in rc:
+        q.set_max_attempts(rc["maxAtt"] or None)
+        qd["maxAtt"] = rc["maxAtt"]
+    if "choices" in rc and callers_list is not None:
+        callers_list[:] = rc["choices"]
+        qd["built"] = list(qd["choices"])
+        qd["choices"] = list(rc["choices"])
+    return qd
 
 
 def proj(v):
@@ -227,6 +271,11 @@ def _formatter():
 
 def joined(ls):
     return "".join(x + "\n" for x in ls)
+
+
+def cl(x):
+    """typed text -> the model's characters ("~" stands for the carriage return)"""
+    return ["~" if c == "\r" else c for c in x]
 
 
 def R(op, ls=(), b=False):
@@ -282,7 +331,7 @@ class Session(object):
             self.flag = o["b"]
         return io
 
-    def ask(self, qd, question=None, sess=1, obj=0, reask=False):
+    def ask(self, qd, question=None, sess=1, obj=0, reask=False, callers_list=None):
         """asks the question (a fresh object unless one is given), returns the event record"""
         E = _env()
         ins, out, err = self.ins, self.out, self.err
@@ -301,7 +350,7 @@ class Session(object):
         route, self.pending = self.pending, []
         kind, cls, val = "ret", "", None
         if question is None:
-            question = build(qd)
+            question, callers_list = build(qd)
         try:
             val = question.ask(self.io)
         except Budget:
@@ -312,11 +361,14 @@ class Session(object):
         except BaseException as e:  # noqa: every exception kind is an observation
             kind, cls = "exc", type(e).__name__
         etext = err.fetch()[e0:]
-        left = getattr(question, "max_attempts", None)
+        try:
+            left = question.max_attempts
+        except Exception:  # noqa
+            left = -1
         return {
             "q": q_event(qd), "sess": sess, "obj": obj, "reask": reask,
-            "route": [{"op": o["op"], "ls": [list(x) for x in o["ls"]], "b": o["b"]} for o in route],
-            "script": [list(x) for x in self.lines],
+            "route": [{"op": o["op"], "ls": [cl(x) for x in o["ls"]], "b": o["b"]} for o in route],
+            "script": [cl(x) for x in self.lines],
             "start": start,
             "obs": {
                 "kind": kind, "cls": cls, "val": proj(val),
@@ -325,6 +377,7 @@ class Session(object):
                 "prompts": etext.count(E["QST"]),
                 "outBytes": len(out.fetch()) - o0, "errBytes": len(etext),
                 "maxAfter": 0 if left is None else (left if isinstance(left, int) and not isinstance(left, bool) else -1),
+                "listSame": callers_list is None or callers_list == list(qd["choices"]),
             },
         }
 
@@ -336,24 +389,56 @@ def normal(case):
     return {"objects": case["questions"], "sessions": [{"lines": case["lines"], "asks": list(range(len(case["questions"])))}]}
 
 
+def failed_event(qd, lines, route, sess, obj, reask, e):
+    """a step of the driver outside ask() raised (building the question, preparing the I/O): an observation, not a crash"""
+    return {
+        "q": q_event(qd), "sess": sess, "obj": obj, "reask": reask,
+        "route": [{"op": o["op"], "ls": [cl(x) for x in o["ls"]], "b": o["b"]} for o in route],
+        "script": [cl(x) for x in lines], "start": 0,
+        "obs": {"kind": "exc", "cls": type(e).__name__, "val": proj(None), "reads": 0, "consumed": 0, "errs": 0, "prompts": 0,
+                "outBytes": 0, "errBytes": 0, "maxAfter": qd["maxAtt"], "listSame": True},
+    }
+
+
 def run_case(case):
-    """case = {"objects": [qd, ...], "sessions": [{"lines": [...], "asks": [object index, ...]}, ...]} -> trace.
-    A question object is built when it is first asked and kept: asking index i again re-asks the SAME object,
-    within one input or on a later one."""
+    """case = {"objects": [qd, ...], "sessions": [{"lines": [...], "asks": [i | {"obj": i, "reconf": {...}}, ...], "route"}]}
+    -> trace.  A question object is built when it is first asked and kept: asking index i again re-asks the SAME object,
+    within one input or on a later one; "reconf" = setters used / list edits made by the caller before that ask."""
     case = normal(case)
     old = signal.signal(signal.SIGALRM, _on_alarm)
     signal.alarm(STALL_S)
     try:
-        objs = {}
+        objs = {}  # index -> (question, caller's list, description that holds now)
         tr = []
         for k, ses in enumerate(case["sessions"]):
-            s = Session(ses["lines"], ses.get("route"))
-            for i in ses["asks"]:
-                qd = case["objects"][i]
+            route = ses.get("route") or [R("ctor", ses["lines"])]
+            try:
+                s = Session(ses["lines"], route)
+            except (KeyboardInterrupt, Stalled):
+                raise
+            except Exception as e:  # noqa
+                first = ses["asks"][0] if ses["asks"] else 0
+                i = first["obj"] if isinstance(first, dict) else first
+                tr.append(failed_event(case["objects"][i], ses["lines"], route, k + 1, i + 1, i in objs, e))
+                continue
+            for a in ses["asks"]:
+                i, rc = (a["obj"], a.get("reconf") or {}) if isinstance(a, dict) else (a, {})
                 reask = i in objs
-                if not reask:
-                    objs[i] = build(qd)
-                tr.append(s.ask(qd, objs[i], k + 1, i + 1, reask))
+                try:
+                    if not reask:
+                        q, cl_ = build(case["objects"][i], kw=bool(i % 2))
+                        objs[i] = (q, cl_, case["objects"][i])
+                    if rc:
+                        q, cl_, qd = objs[i]
+                        objs[i] = (q, cl_, reconfigure(q, cl_, qd, rc))
+                except (KeyboardInterrupt, Stalled):
+                    raise
+                except Exception as e:  # noqa
+                    tr.append(failed_event(case["objects"][i], ses["lines"], s.pending, k + 1, i + 1, reask, e))
+                    s.pending = []
+                    continue
+                q, cl_, qd = objs[i]
+                tr.append(s.ask(qd, q, k + 1, i + 1, reask, cl_))
                 if s.dead:
                     return tr
         return tr
@@ -372,18 +457,27 @@ def case_of(rec, pools):
         p = dict(pools["patterns"][rec["p"] - 1])
         p["dflt"] = rec["p"] == 1
         qd = qdesc("confirm", defB=rec["db"], interactive=rec["i"], pat=p)
-        lines = [pools["confirmAnswers"][j - 1] for j in rec["s"]]
+        lines = [pools["confirmAnswers"][j - 1].replace("~", "\r") for j in rec["s"]]
     else:
         dpool = pools["defaults"] if k == "choice" else pools["plainDefaults"]
-        qd = qdesc(k, [pools["choices"][j - 1] for j in rec["c"]], rec["m"], dpool[rec["d"] - 1] if rec["d"] else None,
+        rc = rec["f"]["rc"] if rec["rounds"] == 2 else 0
+        multi0 = (not rec["m"]) if rc == 2 else rec["m"]  # the behaviour reports the configuration of its last dialogue
+        qd = qdesc(k, [pools["choices"][j - 1] for j in rec["c"]], multi0, dpool[rec["d"] - 1] if rec["d"] else None,
                    maxAtt=rec["a"], interactive=rec["i"], validator=rec["v"], built=rec["b"] if k == "choice" else None)
-        lines = [pools["answers"][j - 1] for j in rec["s"]]
+        lines = [pools["answers"][j - 1].replace("~", "\r") for j in rec["s"]]
+        if rc == 2:
+            return {"objects": [qd], "sessions": [{"lines": lines, "asks": [0, {"obj": 0, "reconf": {"multi": rec["m"]}}],
+                                                   "route": _route(rec)}]}
     # rounds = 2: the same question object is asked twice on the one input
-    return {"objects": [qd], "sessions": [{"lines": lines, "asks": [0] * rec["rounds"], "route": rec["route"]}]}
+    return {"objects": [qd], "sessions": [{"lines": lines, "asks": [0] * rec["rounds"], "route": _route(rec)}]}
+
+
+def _route(rec):
+    return [{"op": o["op"], "ls": [x.replace("~", "\r") for x in o["ls"]], "b": o["b"]} for o in rec["route"]]
 
 
 def _exp(o, r, n, e, w, att):
-    return {"kind": o["ok"], "cls": o["x"],
+    return {"listSame": True, "kind": o["ok"], "cls": o["x"],
             "val": {"t": o["t"], "s": list(o["vs"]), "l": [list(x) for x in o["vl"]], "b": o["vb"]},
             "reads": r, "consumed": n, "errs": e, "prompts": w, "maxAfter": att}
 
@@ -467,8 +561,8 @@ class Replayer(object):
 
 
 # ---------------------------------------------------------------------------------- code -> spec
-NAMES = ["Superman", "Batman", "Spiderman", "a", "A", "b", "1", "0", "2", "10", "x y", "a.b", "a-b", "xy", "ab", "-1", "c_d"]
-JUNK = ["zz", "John", "</info>", "+1", "01", "-0", "1_0", "99", "-2", "-1", "4", "5", "a b", "a,", ",a", "a,,b", "0 1", "?", "yes"]
+NAMES = ["Superman", "Batman", "Spiderman", "a", "A", "b", "1", "0", "2", "10", "x y", "a.b", "a-b", "xy", "ab", "-1", "c_d", ""]
+JUNK = ["zz", "John", "</info>", "+1", "01", "-0", "1_0", "99", "-2", "-1", "4", "5", "a b", "a,", ",a", "a,,b", "0 1", "?", "yes", "{}", "{0}", "%s"]
 CONF = ["y", "Y", "yes", "YES", "n", "no", "j", "J", "oui", "ye", "yess", "ny", " y", "y ", "  ", "", "o", "Oui", "0", "1",
         "nay", "oh yes", "not ok", "ok", "OK", "01", "10", "no way", "maybe", "yes please"]
 PATS = [NOPAT, {"ci": True, "alts": ["j", "y"], "whole": False}, {"ci": False, "alts": ["yes", "oui"], "whole": True},
@@ -479,7 +573,7 @@ PATS = [NOPAT, {"ci": True, "alts": ["j", "y"], "whole": False}, {"ci": False, "
 
 
 def pad(rng, s):
-    return rng.choice(["", "", " ", "  ", "\t"]) + s + rng.choice(["", "", " ", "\t "])
+    return rng.choice(["", "", " ", "  ", "\t"]) + s + rng.choice(["", "", " ", "\t ", "\r", " \r"])  # CRLF input lines
 
 
 def rand_item(rng, choices):
@@ -518,8 +612,14 @@ def rand_question(rng):
     att = rng.choice([0, 1, 2, 3])
     if x < 0.24:
         val = rng.random() < 0.75
-        return qdesc("plain", choices, default=rng.choice([None, None, choices[0], "zz"]), maxAtt=att if val else 0,
-                     interactive=inter, validator=val)
+        qd = qdesc("plain", choices, default=rng.choice([None, None, choices[0], "zz", ""]), maxAtt=att if val else 0,
+                   interactive=inter, validator=val)
+        x = rng.random()  # driver-only extras: entry points that must not change the dialogue
+        if x < 0.2:
+            qd["hidden"] = True
+        elif x < 0.4:
+            qd["auto"] = True
+        return qd
     multi = rng.random() < 0.45
     default = None
     if rng.random() < 0.45:
@@ -529,7 +629,10 @@ def rand_question(rng):
                 default = " " + default + " "
         else:
             default = str(rng.randrange(0, n))
-    return qdesc("choice", choices, multi, default, maxAtt=att, interactive=inter)
+    qd = qdesc("choice", choices, multi, default, maxAtt=att, interactive=inter)
+    if rng.random() < 0.25:
+        qd["errmsg"] = True
+    return qd
 
 
 def callers_edit(rng, qd):
@@ -573,6 +676,34 @@ def rand_route(rng, lines, inter):
     return route
 
 
+def rand_reconf(rng, qd):
+    rc = {}
+    if qd["kind"] == "choice":
+        x = rng.random()
+        if x < 0.4 and not (qd["multi"] and "," in qd["def"]):  # a comma default belongs to multi-select
+            rc["multi"] = not qd["multi"]
+        elif x < 0.7:
+            cs = list(qd["choices"])
+            edits = [cs + [rng.choice(["late", "3"])], [rng.choice(["new", "b"])] + cs[1:]]
+            if not qd["hasDef"]:  # a default names indices: the list must not get shorter than that
+                edits.append(cs[1:] or ["only"])
+            rc["choices"] = rng.choice(edits)
+    if not rc or rng.random() < 0.3:
+        if qd["validator"]:
+            rc["maxAtt"] = rng.choice([0, 1, 2, 3])
+    return rc
+
+
+def describe_after(qd, rc):
+    qd = dict(qd)
+    for k in ("multi", "maxAtt"):
+        if k in rc:
+            qd[k] = rc[k]
+    if "choices" in rc and qd["kind"] == "choice":
+        qd["choices"] = list(rc["choices"])
+    return qd
+
+
 def rand_case(rng):
     """1-2 inputs; 1-4 question objects, some of them asked again (same input or the next one)"""
     objects = [rand_question(rng) for _ in range(rng.randint(1, 4))]
@@ -580,17 +711,26 @@ def rand_case(rng):
         if qd["kind"] == "choice" and rng.random() < 0.2:
             callers_edit(rng, qd)
     sessions = []
+    asked, current = set(), {i: qd for i, qd in enumerate(objects)}
     for _s in range(rng.choice([1, 1, 2])):
         asks = list(range(len(objects))) if not sessions else []
         for _ in range(rng.choice([0, 1, 1, 2]) + (1 if sessions else 0)):
             asks.insert(rng.randint(1 if asks else 0, len(asks)), rng.randrange(len(objects)))
-        lines = []
+        # an object that is asked again may have been reconfigured by the caller in between
+        seen_now, out_asks, lines = set(asked), [], []
         for i in asks:
+            a = i
+            if i in seen_now and rng.random() < 0.35:
+                a = {"obj": i, "reconf": rand_reconf(rng, current[i])}
+                current[i] = describe_after(current[i], a["reconf"])
+            seen_now.add(i)
+            out_asks.append(a)
             for _ in range(rng.choice([0, 1, 1, 1, 2, 2, 3])):
-                lines.append(rand_line(rng, objects[i]))
+                lines.append(rand_line(rng, current[i]))
+        asked |= seen_now
         if rng.random() < 0.3:  # plenty of input: the dialogues end before the input does
-            lines += [rand_line(rng, objects[asks[-1]]) for _ in range(3)]
-        sessions.append({"lines": lines, "asks": asks, "route": rand_route(rng, lines, objects[asks[0]]["interactive"] if asks else True)})
+            lines += [rand_line(rng, current[asks[-1]]) for _ in range(3)]
+        sessions.append({"lines": lines, "asks": out_asks, "route": rand_route(rng, lines, objects[asks[0]]["interactive"] if asks else True)})
     return {"objects": objects, "sessions": sessions}
 
 
